@@ -23,6 +23,15 @@ def check(m, run):
     rs.iv6_reset_complete(m, run)
     iv5(m, run)
     iv7(m, run)
+    # a plain evaluate() re-evaluates the whole domain whatever points are stored (they may come from a sub-range)
+    from .. import skel_drivers as _sd
+    _sd.dom2(m, run)
+    # transposition follows the definition protocol of the setters (degrees first, then the net, then the knots), otherwise a valid
+    # transposed net is validated against the old degrees, rejected, and the surface is left reset
+    from . import c13
+    from .. import layout
+    summ, _contracts = layout.flip_summaries(m)
+    c13.transpose_rule(m, run, summ)
     from . import c10
     c10.pu2(m, run)      # without inplace, the transforms return an object that shares nothing with their argument: editing one never changes the other
     run.floor('IV1.no-stale-cache', 600, 'class x entry x cache triples on the pinned tree')
